@@ -159,6 +159,16 @@ def check_c20(tier, seed):
     for p in ["GO", "GO\n", "_", "3dmet", "GO:", "a b", "p://x", "p:a b", ":test", "_:test", "4cdn:test", "", " ", "a:b:c", "a:/", "a://x", "//x", "/", "a:[b]",
               "smiles:CC(=O)", "pfx:a\n", "\na:b", "a\xa0b", "a:b\u2028"]:
         strings.append(p)
+    # hazard characters on a random stream of their own: letters that ASCII-insensitive matching folds onto ASCII letters
+    # (Kelvin sign, long s, dotless and dotted i), every kind of Unicode white space, digits outside ASCII
+    hrng = random.Random(seed * 43 + 2020)
+    halpha = ["a", "Z", "k", "s", "i", "0", "_", ".", "-", ":", "/", "\u212a", "\u017f", "\u0131", "\u0130", "\u00e9", "\u03ba", "\u0661", "\uff11", "\u00b2",
+              " ", "\t", "\n", "\r", "\x0b", "\x0c", "\x1c", "\x1d", "\x1e", "\x1f", "\x85", "\xa0", "\u1680", "\u2000", "\u2003", "\u200a", "\u2028", "\u2029", "\u202f",
+              "\u205f", "\u3000", "\u200b", "\u200c", "\ufeff"]
+    for ch in halpha:
+        strings += [ch, "a" + ch, ch + "a", "a" + ch + ":1", "a:" + ch, "a:1" + ch + "2", "GO:0000" + ch + "012", ch + ":1"]
+    for _ in range(1500 if tier == "quick" else 20000):
+        strings.append("".join(hrng.choice(halpha) for _ in range(hrng.randrange(1, 7))))
     strings = list(dict.fromkeys(strings))
     # second pass over a sample in reverse order: the answer must not depend on what was asked before
     again = rng.sample(strings, min(len(strings), 4000))
@@ -328,6 +338,17 @@ def check_c19(tier, seed):
         sh = list(uris)
         rng.shuffle(sh)
         discover_call(calls, sh + sh[:1], delims, cutoff, meta, pre, "list")
+    # hazard tails on a random stream of their own: white space at the end (URIs read line by line), digits and letters
+    # outside ASCII, invisible characters, non-NFC sequences
+    hrng = random.Random(seed * 41 + 1919)
+    htails = ["abc\n", "abc\r\n", "abc ", "abc\t", "12\n", "e\u0301", "\u212b", "\u0661\u0662\u0663", "\u2167", "\u00b2", "a\u200cb", "a\u00adb", "\U0002f800", "\uff11\uff12", "abc", "12"]
+    hroots = ["http://aaa.example/", "http://bbb.example/obo/BB_", "http://ccc.example/x#", "https://E.org/", "http://ddd.example/p="]
+    for k in range(60 if quick else 900):
+        uris = [hrng.choice(hroots) + hrng.choice(htails) for _ in range(hrng.randrange(1, 8))]
+        if hrng.random() < 0.5:
+            uris += [hrng.choice(uris)]
+        discover_call(calls, uris, hrng.choice([None, None, ["/"], ["#", "/", "_", "="]]), hrng.choice([None, None, 1, 2]), hrng.choice([None, "ns"]), None,
+                      hrng.choice(["list", "set", "gen", "tuple"]))
     # the discover calls the repository's own tests make, with the results THEY saw
     import world
     n_repo = 0
@@ -649,6 +670,15 @@ def check_c18(tier, seed):
         parts = [(t, rng.choice([None, None, 1000, 900, 800, 500, 550, 300, 100, 1, 0])) for t in ts]
         neg_call(parts, rng.randrange(16), served=(k % 10 == 0))
     neg_call([], 0, served=True)
+    # browser-like headers: many media ranges, several unsupported ones outrank the supported one
+    for parts in ([("text/html", None), ("application/xhtml+xml", None), ("image/avif", None), ("image/webp", None), (SUPPORTED[0], 900), ("*/*", 800)],
+                  [("text/html", None), ("application/xhtml+xml", None), ("image/avif", None), (SYNONYMS[0], 900), (SUPPORTED[-1], 800)],
+                  [("image/webp", 1000), ("image/avif", 1000), ("text/html", 1000), ("text/plain", 900), (SUPPORTED[1], 900), (SUPPORTED[0], 100)],
+                  [(UNSUPPORTED[0], 300), (UNSUPPORTED[-1], 300), ("text/html", 300), ("a/b", 300), ("c/d", 200), (SUPPORTED[-1], 200), (SUPPORTED[0], 100)]):
+        seen_t = set()
+        parts = [(t, q) for t, q in parts if not (t in seen_t or seen_t.add(t))]
+        for ws in (0, 5, 11):
+            neg_call(parts, ws, served=(ws == 0))
     # no Accept header at all (GET and POST), and handle_header(None): the default applies
     got = handle_header(None)
     calls.add({"f": "negotiate", "parts": [], "via": "handle_header", "got": got}, {"f": "negotiate", "header": None, "got": got, "via": "handle_header"})
@@ -716,8 +746,13 @@ def check_c18(tier, seed):
           "http://purl.obolibrary.org/obo/CHEBI_1", "http://obo.example/CHEBI_1", "http://obo.example/GO_7", "http://obo.example/x", "https://www.ebi.ac.uk/chebi/searchId.do?chebiId=1", "http://identifiers.org/chebi/24867",
           "http://purl.obolibrary.org/obo/GO_0032571", "http://purl.obolibrary.org/obo/go.owl", "http://example.org/nope/1",
           "http://purl.obolibrary.org/obo/CHEBI_", "http://purl.obolibrary.org/obo/CHEBI", "http://purl.obolibrary.org/obo/x_y"]
+    # invisible / format characters, non-NFC sequences, astral characters: legal in IRIs (ucschar) and in SPARQL IRIREFs
+    us_hazard = ["http://example.org/size/a\u200cb", "http://example.org/size/\U0001f468\u200d\U0001f469", "http://example.org/size/a\u00adb",
+                 "http://example.org/size/a\u00a0b", "http://example.org/size/e\u0301", "http://example.org/gr\u00f6\u00dfe/\u212b", "http://example.org/size/\U0002f800"]
     for u in us:
         map_calls(ci0, u, not quick)
+    for u in us_hazard:
+        map_calls(ci0, u, False)
     # a second service in the same process whose converter DISAGREES on the same URIs
     alt_recs = [{"p": "CHEBI", "u": "http://identifiers.org/chebi/", "ps": [], "us": ["http://purl.obolibrary.org/obo/CHEBI_"], "pat": None},
                 {"p": "obo", "u": "http://obo.example/", "ps": [], "us": [], "pat": None}]
